@@ -177,7 +177,14 @@ func c20Call(l string, boundary bool) string {
 		return "no-such-method"
 	}
 	mt := m.Type()
-	args := []reflect.Value{reflect.ValueOf(context.Background())}
+	ctx := context.Background()
+	if boundary {
+		// boundary value of the context: already cancelled (the table neither looks at it nor waits on it)
+		c, cancel := context.WithCancel(ctx)
+		cancel()
+		ctx = c
+	}
+	args := []reflect.Value{reflect.ValueOf(ctx)}
 	for i := 1; i < mt.NumIn(); i++ {
 		if boundary {
 			args = append(args, c20BoundaryArg(mt.In(i), i-1))
